@@ -10,6 +10,16 @@ NOTES = ("All checks: `harness/check.py Cxx`. Each run re-extracts Generated/*.l
 NOT_APPLICABLE = {}
 
 CHECKS = {
+    "C10": {
+        "text": ("Lean theorems about the hand model of index_to_loc / to_dict of every error class / GraphQLResult.response / the staged "
+                 "process_graphql_query / the executors' error capture: loc_bounds (all texts, all positions), index_to_loc_total_iff, "
+                 "data_omitted_iff, null_error_bijection, result_wellformed, response_wellformed_partial (+ refutation of the full statement: "
+                 "the misspelt `columne` key, finding X1); response keys and the data=None flags of the _abort calls are re-extracted from "
+                 "source each run; tied by stage-outcome correspondence and a direct WellFormed + bijection oracle on four configurations."),
+        "note": ("Trusted: Lean kernel; extraction of key names/abort flags; stage internals (parse, validate, coerce) are observed through the real "
+                 "functions, scalar serialisers and highlight_location only exercised; async/thread-pool scheduling compared as multisets."),
+        "technique": "Lean 4 proof over staged response model + extracted keys + direct response-format oracle",
+    },
     "C13": {
         "text": ("Lean theorems about a method-by-method model of SchemaValidator: validate_iff/accepts_iff (no error <=> ValidSchema), "
                  "subtype_iff about Schema.is_subtype TRANSLATED from source on every run, perm_types, reports_all, "
